@@ -73,6 +73,14 @@ static void atom_text(const char* a, char* cond, size_t* co, char* strs, size_t*
   case 'F': *co += snprintf(cond + *co, SRCMAX - *co, "false"); break;
   case 'U': *co += snprintf(cond + *co, SRCMAX - *co, "uint8(100000) == 1"); break;   // undefined on every test buffer
   case 'z': *co += snprintf(cond + *co, SRCMAX - *co, "filesize > %s", a + 1); break;
+  case 'I':
+  {
+    static const char* INTCOND[] = {"-1", "3 - filesize", "~uint8(1)", "int8(0)", "filesize - 5", "0 - filesize"};
+    int k = atoi(a + 1);
+    if (k < 0 || k > 5) DIE("bad integer atom %s", a);
+    *co += snprintf(cond + *co, SRCMAX - *co, "%s", INTCOND[k]);
+    break;
+  }
   case 'y': *co += snprintf(cond + *co, SRCMAX - *co, "filesize < %s", a + 1); break;
   case 'r': *co += snprintf(cond + *co, SRCMAX - *co, "r%s", a + 1); break;
   case 'x': *co += snprintf(cond + *co, SRCMAX - *co, "not r%s", a + 1); break;
@@ -249,6 +257,15 @@ int main()
         CB cb = {strcmp(script, "-") ? script : "", 0};
         uint8_t* buf = bufs[k % nbufs]; size_t blen = blens[k % nbufs];
         if (k) printf(" |");
+        if (script[0] == 'F')
+        {  // F<f>_<x>: yr_scanner_set_flags at this point of the history
+          int f2 = atoi(script + 1); const char* us = strchr(script, '_'); int x2 = us ? atoi(us + 1) : 0;
+          flags = ((f2 & 1) ? SCAN_FLAGS_REPORT_RULES_MATCHING : 0) | ((f2 & 2) ? SCAN_FLAGS_REPORT_RULES_NOT_MATCHING : 0) |
+                  ((x2 & 1) ? SCAN_FLAGS_FAST_MODE : 0) | ((x2 & 4) ? SCAN_FLAGS_NO_TRYCATCH : 0);
+          if (sc) yr_scanner_set_flags(sc, flags);
+          printf(" SETF");
+          continue;
+        }
         if (kind == 'p')
         {
           if (api == 'r') yr_rules_scan_proc(rules, (int) get_child(), flags, quiet_cb, NULL, 0);
